@@ -913,11 +913,11 @@ impl Harness for Scenario {
 }
 
 fn run_plan(prop: &str, tier: Tier, rule: &str, assumptions: Vec<String>, goals: &[&str], plan: Vec<(&str, ScenCfg, u32)>) -> i32 {
-    run_plan_with(prop, tier, rule, assumptions, goals, plan, None)
+    run_plan_with(prop, tier, rule, assumptions, goals, plan, &[])
 }
 
 /// `child`: (binary, subcommand, phase name, goals it must meet) of a phase another binary runs.
-fn run_plan_with(prop: &str, tier: Tier, rule: &str, assumptions: Vec<String>, goals: &[&str], plan: Vec<(&str, ScenCfg, u32)>, child: Option<(&str, &str, &str, &[&str])>) -> i32 {
+fn run_plan_with(prop: &str, tier: Tier, rule: &str, assumptions: Vec<String>, goals: &[&str], plan: Vec<(&str, ScenCfg, u32)>, children: &[(&str, &str, &str, &[&str])]) -> i32 {
     let mut rep = Report::new(prop, tier.name());
     rep.rule = rule.to_string();
     rep.assumptions = assumptions;
@@ -930,7 +930,7 @@ fn run_plan_with(prop: &str, tier: Tier, rule: &str, assumptions: Vec<String>, g
         let h = Scenario(cfg);
         rep.add(explore(name, h.0.to_json(), &h, &c));
     }
-    if let Some((bin, sub, phase, child_goals)) = child {
+    for (bin, sub, phase, child_goals) in children.iter().copied() {
         for g in child_goals {
             rep.require_goal(g);
         }
@@ -982,7 +982,7 @@ pub fn run_c08(tier: Tier) -> i32 {
         tier.pick(1, 2),
     ));
     let mut a = base_assumptions();
-    a.push("in the real-transport phase (child process `sockets c08-child`) the server runs over the listeners and transports of zlink-tokio and zlink-smol with plain std clients that stay, half-close their sending side or close, right after writing or once the server is idle: a client that can still read gets exactly its replies, everything it sent before hanging up is handled once; a client that closed altogether is owed nothing but the handling of its leading oneway calls".into());
+    a.push("in the real-transport phase (child process `sockets c08-child`) the server runs over the listeners and transports of zlink-tokio and zlink-smol with plain std clients that stay, half-close their sending side or close, right after writing or once the server is idle, and with calls / replies of 300 KB that a client may leave half-written: a client that can still read gets exactly its replies, everything it sent before hanging up is handled once; a client that closed altogether is owed nothing but the handling of its leading oneway calls".into());
     run_plan_with(
         "C08",
         tier,
@@ -990,7 +990,7 @@ pub fn run_c08(tier: Tier) -> i32 {
         a,
         &["pipelined-burst", "oneway-call", "burst-cut-mid-frame", "several-events-before-a-poll", "fault-with-other-connections-live"],
         plan,
-        Some(("sockets", "c08-child", "real-listeners-and-transports/tokio+smol(child)", &["client-half-closes-before-the-server-reads", "oneway-call-then-close"])),
+        &[("sockets", "c08-child", "real-listeners-and-transports/tokio+smol(child)", &["client-half-closes-before-the-server-reads", "oneway-call-then-close", "client-leaves-a-large-reply-half-written-while-another-is-served"])],
     )
 }
 
@@ -1034,7 +1034,10 @@ pub fn run_c09(tier: Tier) -> i32 {
     #[cfg(not(zlink_verif_small_buf))]
     let goals = ["fault-with-other-connections-live", "connect-after-a-fault", "long-undecodable-frame-of-multibyte-characters"];
     a.push("in the notified-state phase (child process `sockets c09-child`) the service's reply streams are the library's notified::State of zlink-tokio / zlink-smol and clients hang up, also while subscribed: the other subscribers still get the latest value, later subscriptions work, callers of Set get their replies".into());
-    run_plan_with("C09", tier, RULE, a, &goals, plan, Some(("sockets", "c09-child", "notified-state-service/subscribers-that-hang-up/tokio+smol(child)", &["subscriber-hangs-up", "state-changes-after-one-of-several-subscribers-hung-up"])))
+    run_plan_with("C09", tier, RULE, a, &goals, plan, &[
+        ("sockets", "c09-child", "notified-state-service/subscribers-that-hang-up/tokio+smol(child)", &["subscriber-hangs-up", "state-changes-after-one-of-several-subscribers-hung-up"]),
+        ("sockets", "c08-child", "real-listeners-and-transports/clients-that-leave/tokio+smol(child)", &["client-leaves-a-large-reply-half-written-while-another-is-served", "client-half-closes-before-the-server-reads"]),
+    ])
 }
 
 pub fn run_c10(tier: Tier) -> i32 {
@@ -1073,7 +1076,7 @@ pub fn run_c10(tier: Tier) -> i32 {
         a,
         &["stream-item", "non-final-item-flagged-continues-false", "stream-ends", "calls-pipelined-behind-streaming-call", "stream-ends-with-calls-queued-behind", "other-client-calls-while-stream-open", "calls-arrive-while-stream-open", "client-unwritable-mid-stream"],
         plan,
-        Some(("sockets", "c10-child", "notified-state-service/tokio+smol(child)", &["burst-of-state-changes-while-subscribed", "subscriber-got-the-latest-value", "one-shot-stream", "subscriber-hangs-up"])),
+        &[("sockets", "c10-child", "notified-state-service/tokio+smol(child)", &["burst-of-state-changes-while-subscribed", "subscriber-got-the-latest-value", "one-shot-stream", "subscriber-hangs-up"])],
     )
 }
 
